@@ -280,7 +280,13 @@ class Online:
                                 pos = cc.bound[jf - 1] + n1
                                 continue
                 break
+            # a gap that stays inside one file is where the writer's position is easiest to get wrong: probe it at once
+            win = lambda x: max(j for j in range(1, cc.nw + 1) if cc.bound[j - 1] <= x)
+            starts = [pos] + [a0 + n0 for a0, n0 in runs[:-1]]
+            infile_gap = any(a0 > p0 and p0 > cc.bound[0] and win(a0) == win(p0 - 1) for p0, (a0, n0) in zip(starts, runs))
             pos = runs[-1][0] + runs[-1][1]
+            if infile_gap and self.bad_rate > 0 and rng.random() < 0.5:
+                ch.bad("past")
             if rng.random() < self.observe_mid:
                 ch.observe([d], rng, npairs=6, nvec=2)
         ch.close()
